@@ -339,22 +339,38 @@ impl Drop for Server {
   }
 }
 
+/// Ports are handed out from a process-wide counter (two concurrent starts must never get the same port) and
+/// probed for being free; the operating system's own ephemeral choice is not used because it can repeat.
+static NEXT_PORT: AtomicU64 = AtomicU64::new(0);
+
 fn free_port() -> u16 {
-  TcpListener::bind("127.0.0.1:0").map(|l| l.local_addr().unwrap().port()).unwrap_or(0)
+  for _ in 0..2000 {
+    let k = NEXT_PORT.fetch_add(1, Ordering::SeqCst);
+    let port = 21000 + ((std::process::id() as u64 * 131 + k) % 20000) as u16;
+    if TcpListener::bind(("127.0.0.1", port)).is_ok() {
+      return port;
+    }
+  }
+  0
 }
 
 fn start_server() -> Result<Server, String> {
   let exe = format!("{}/target/release/vh", crate::report::root());
-  for _ in 0..5 {
+  for _ in 0..8 {
     let port = free_port();
     let child = Command::new(&exe).arg("c18server").arg(port.to_string()).env("TZ", "UTC").stdout(Stdio::null()).stderr(Stdio::null()).spawn().map_err(|e| e.to_string())?;
     let mut s = Server { child, port };
     let t0 = Instant::now();
     while t0.elapsed() < Duration::from_secs(10) {
-      if TcpStream::connect(("127.0.0.1", port)).is_ok() {
-        return Ok(s);
-      }
       if let Ok(Some(_)) = s.child.try_wait() {
+        break; // could not bind: another port
+      }
+      if TcpStream::connect(("127.0.0.1", port)).is_ok() {
+        // the listener must be this child: it is still alive a moment later
+        std::thread::sleep(Duration::from_millis(30));
+        if let Ok(None) = s.child.try_wait() {
+          return Ok(s);
+        }
         break;
       }
       std::thread::sleep(Duration::from_millis(20));
@@ -379,7 +395,16 @@ pub struct Req {
 }
 
 fn send(port: u16, r: &Req) -> Result<Resp, String> {
-  let mut s = TcpStream::connect(("127.0.0.1", port)).map_err(|e| format!("connect: {}", e))?;
+  // a refused or failed connect is retried briefly (transient socket exhaustion under load); a dead service stays dead
+  let mut conn = TcpStream::connect(("127.0.0.1", port));
+  for _ in 0..3 {
+    if conn.is_ok() {
+      break;
+    }
+    std::thread::sleep(Duration::from_millis(100));
+    conn = TcpStream::connect(("127.0.0.1", port));
+  }
+  let mut s = conn.map_err(|e| format!("connect: {}", e))?;
   let _ = s.set_read_timeout(Some(Duration::from_secs(20)));
   let _ = s.set_write_timeout(Some(Duration::from_secs(20)));
   let mut head = format!("{} {} HTTP/1.1\r\nHost: 127.0.0.1\r\nConnection: close\r\nContent-Length: {}\r\n", r.method, r.path, r.body.len());
